@@ -21,7 +21,8 @@ RULE = ("a case is (history of 2-5 loky Parallel calls, with/without `with`, n_j
         "with other executor arguments / another n_jobs makes loky shut the executor down gracefully or resize it, and the worker dies while that waits)}; the quick tier enumerates every "
         "instant x how once, the thorough tier crosses them with victims, n_jobs, call position and batch size; "
         "distinct_nontrivial counts distinct (instant, how, victims, n_jobs, call index, managed) whose fault really "
-        "happened (a call failed or worker pids changed)")
+        "happened (a call failed or worker pids changed)"
+        " Task arguments range up to 1.5 MB; the instant death_while_caller_pulls_input stalls the input at item n_jobs until the executor has noticed the death.")
 ASSUMPTIONS = [
     "a call either returns exactly the expected list or raises a BrokenProcessPool subclass; at most one call fails per fault; "
     "the call after a failing call returns the expected list computed by live pids",
